@@ -166,6 +166,7 @@ func VerifH_C17_merge() {
 	symAssert(base.Set(vCtx, time.Unix(0, t0), "k", "v0") == nil, "set-ok")
 	_, err = base.Commit(vCtx)
 	symAssert(err == nil, "commit-ok")
+	vBaseBucket = bkt.fork()
 	var ts [2]int64
 	var tomb [2]bool
 	for w := 0; w < 2; w++ {
@@ -177,6 +178,10 @@ func VerifH_C17_merge() {
 		symAssume(ts[w] < 1<<62)
 		symAssume(ts[w] != t0)
 		tomb[w] = symChoice("kind"+ws, 2) == 1
+		if w == 0 {
+			// a tombstone on a key nobody ever set
+			symAssert(h.Tombstone(vCtx, time.Unix(0, ts[w]), "never-set") == nil, "tombstone-ok")
+		}
 		if tomb[w] {
 			symAssert(h.Tombstone(vCtx, time.Unix(0, ts[w]), "k") == nil, "tombstone-ok")
 		} else {
@@ -220,9 +225,32 @@ func VerifH_C17_merge() {
 	cur, err := m.Cursor(vCtx)
 	symAssert(err == nil, "cursor-ok")
 	symAssert(cur.Min(vCtx) == nil, "cursor-min-ok")
-	_, cv, found := cur.Get()
+	ck, cv, found := cur.Get()
 	symAssert(found, "cursor-finds-entry")
+	symAssert(ck.(string) == "k", "cursor-in-key-order")
 	symAssert(cv.Tombstoned() == ref.tomb, "cursor-agrees-on-tombstone")
+	// Diff between the merged view and the base version reports the key exactly
+	// when its visible value differs (a tombstone of a key that the other side
+	// never had is not a difference)
+	bdb, err := vKVOpen(vBaseBucket.client(6), 40, true, mode)
+	symAssert(err == nil, "base-open-ok")
+	var diffKeys []string
+	err = m.Diff(vCtx, bdb, func(key, mine, from interface{}) (bool, error) {
+		diffKeys = append(diffKeys, key.(string))
+		return true, nil
+	})
+	symAssert(err == nil, "diff-ok")
+	kChanged := ref.tomb || ref.val != "v0"
+	sawK, sawOther := false, false
+	for _, dk := range diffKeys {
+		if dk == "k" {
+			sawK = true
+		} else {
+			sawOther = true
+		}
+	}
+	symAssert(sawK == kChanged, "diff-reports-key-iff-visible-value-differs")
+	symAssert(!sawOther, "diff-ignores-tombstone-of-never-set-key")
 	// TraceHistory
 	var last int64 = 1 << 62
 	first := true
@@ -242,3 +270,4 @@ func VerifH_C17_merge() {
 }
 
 var vStage = map[string][]byte{}
+var vBaseBucket *vBucket
